@@ -108,4 +108,12 @@ theorem EncFrom.byte {c : Chunk} {i s : Nat} {cell : Bytes} {rest : List Bytes} 
   have : j < c.off + s + cell.length - (c.off + s) := by omega
   simp only [this, if_true]
 
+/-- for a column of the staging arrays the column-subscript checks pass and the kernel body runs -/
+theorem withCol_ok {α} (c : Chunk) (b : Bool) (site : String) (k : Except Err α) (h : c.col < c.ncols) :
+    withCol c b site k = k := by
+  unfold withCol
+  have h1 : ¬ c.ncols < c.col := by omega
+  have h2 : ¬ c.ncols ≤ c.col := by omega
+  simp [h1, h2]
+
 end Exetera.Spec.Transforms
